@@ -51,7 +51,7 @@ PROPS = {
         'covers': {'c07::h_roundtrip': ['parsed-back']},
     },
     'C08': {
-        'harnesses': ['c08::h_edits', 'c08::h_completed'],
+        'harnesses': ['c08::h_edits', 'c08::h_completed', 'c08::h_missing_with_optional'],
         'covers': {'c08::h_edits': ['accepted', 'rejected'], 'c08::h_completed': ['complete']},
     },
     'C09': {
